@@ -590,11 +590,16 @@ class Mitochondria:
 
         # Boolean operations (and, or)
         elif isinstance(node, ast.BoolOp):
-            values = [self._compute_node(v) for v in node.values]
-            bool_func = self.SAFE_BOOL_OPS.get(type(node.op))
-            if bool_func is None:
+            if type(node.op) not in self.SAFE_BOOL_OPS:
                 raise ValueError(f"Unsupported boolean op: {type(node.op).__name__}")
-            return bool_func(values)
+            # Python semantics: short-circuit and return the deciding operand
+            stop_on = isinstance(node.op, ast.Or)
+            value = None
+            for operand in node.values:
+                value = self._compute_node(operand)
+                if bool(value) == stop_on:
+                    break
+            return value
 
         # If expressions (ternary)
         elif isinstance(node, ast.IfExp):
